@@ -89,6 +89,13 @@ def gen_probe_cases(n, r):
             nreq = r.randint(1, 20 if p <= 2 else 12)
             limits.append([nreq, '%ds' % p])
             periods.append(float(p))
+        if i % 5 == 2 and nl >= 1:
+            # two limits with the same period (spelled differently) and different numbers: the smaller number is the one that counts
+            p0 = int(periods[0])
+            n0 = limits[0][0]
+            n1 = max(1, n0 // 2) if i % 2 else n0 + r.randint(1, 5)
+            limits = [limits[0], [n1, '0m%ds' % p0]] + limits[2:]
+            periods = [periods[0], float(p0)] + periods[2:]
         shape = shapes[i % len(shapes)]
         if i % 5 == 4:
             # several limits reached at the same moment, the longer-period one freeing up first: m lone requests, an idle time shorter than
